@@ -306,6 +306,43 @@ def oracle(ctx):
                      {'call': key, 'inputs_hex': hexl(inputs)})
             return None
 
+    TRUE_SPELLINGS = [True, np.bool_(True), np.True_, 1, np.int64(1), 1.0, 'yes']
+    FALSE_SPELLINGS = [False, np.bool_(False), 0, np.int64(0), 0.0, None, '']
+
+    def pure(key, fn, *args):
+        """call fn(*args) twice: every array argument must be byte-identical afterwards and the second call must
+        return the same value (no in-place write on the caller's data, no hidden state); returns the first value"""
+        before = [np.array(a_, copy=True) if isinstance(a_, np.ndarray) else a_ for a_ in args]
+        try:
+            r1 = fn(*args)
+            mutated = [k_ for k_, (b_, a_) in enumerate(zip(before, args))
+                       if isinstance(a_, np.ndarray) and not (b_.shape == a_.shape and b_.tobytes() == a_.tobytes())]
+            r2 = fn(*args)
+        except Exception as ex:  # noqa
+            ctx.fail(f'oracle:{key}:raises:{exc_kind(ex)}', f"{key} raises {type(ex).__name__}: {ex}", {'call': key, 'inputs_hex': [hexl(b_) for b_ in before if isinstance(b_, np.ndarray)]})
+            return None
+        ctx.case(('pure', key, tuple(np.asarray(before[0], float).flatten()[:12])))
+        ctx.count('oracle:pure:' + key)
+        if mutated:
+            ctx.fail(f'oracle:{key}:argument-modified', f"{key} modifies its argument #{mutated[0]} in place: "
+                     f"before {np.asarray(before[mutated[0]]).tolist()} after {np.asarray(args[mutated[0]]).tolist()}",
+                     {'call': key, 'inputs_hex': [hexl(b_) for b_ in before if isinstance(b_, np.ndarray)]})
+            for b_, a_ in zip(before, args):        # restore, so that later measurements see the intended input
+                if isinstance(a_, np.ndarray):
+                    a_[...] = b_
+        a1, a2 = np.asarray(r1, float), np.asarray(r2, float)
+        if not (a1.shape == a2.shape and np.array_equal(a1, a2, equal_nan=True)):
+            ctx.fail(f'oracle:{key}:not-repeatable', f"{key}: a second identical call returns a different value",
+                     {'call': key, 'inputs_hex': [hexl(b_) for b_ in before if isinstance(b_, np.ndarray)], 'first': a1.tolist(), 'second': a2.tolist()})
+        return r1
+
+    def spellings(key, call, truthy_ref, falsy_ref, inputs, scale=1.0, tol=1e-9):
+        """an option that is documented as a flag must behave the same for every truthy / falsy spelling"""
+        for k_, sp in enumerate(TRUE_SPELLINGS):
+            chk(f'{key}:truthy-spelling', lambda: (call(sp)), truthy_ref, scale, np.r_[k_, np.asarray(inputs, float).flatten()], tol=tol)
+        for k_, sp in enumerate(FALSE_SPELLINGS):
+            chk(f'{key}:falsy-spelling', lambda: (call(sp)), falsy_ref, scale, np.r_[k_, np.asarray(inputs, float).flatten()], tol=tol)
+
     for i in range(N):
         # ---------------- vectors of length 1, 3, 6 at magnitudes 1e-6 .. 1e6
         try:
@@ -362,6 +399,42 @@ def oracle(ctx):
             chk('Ad-intertwine-ref', lambda: (base.adjoint(T1) @ S), lambda: (base.vexa(T1 @ ref_hat(S) @ ref_inv(T1))), sc1 * sc1 * nS, np.r_[T1.flatten(), S])
             chk('tr2jac', lambda: (base.tr2jac(T1)), lambda: (blkdiag(T1[:3, :3].T, T1[:3, :3].T)), 1.0, T1)
             chk('tr2jac-samebody', lambda: (base.tr2jac(T1, samebody=True)), lambda: (ref_Ad(ref_inv(T1))), sc1, T1)
+            if i % 10 == 0:
+                # option spellings, keyword and positional, against the independent references
+                JS, JN = ref_Ad(ref_inv(T1)), blkdiag(T1[:3, :3].T, T1[:3, :3].T)
+                spellings('tr2jac(samebody=)', lambda sp: base.tr2jac(T1, samebody=sp), lambda: (JS), lambda: (JN), T1, sc1)
+                spellings('tr2jac(positional)', lambda sp: base.tr2jac(T1, sp), lambda: (JS), lambda: (JN), T1, sc1)
+                Sk, Sa = base_skew(S[3:]), ref_hat(S)
+                spellings('vex(check=)', lambda sp: base.vex(Sk, check=sp), lambda: (S[3:]), lambda: (S[3:]), S, nS)
+                spellings('vex(positional)', lambda sp: base.vex(Sk, sp), lambda: (S[3:]), lambda: (S[3:]), S, nS)
+                spellings('vexa(check=)', lambda sp: base.vexa(Sa, check=sp), lambda: (S), lambda: (S), S, nS)
+                spellings('vexa(positional)', lambda sp: base.vexa(Sa, sp), lambda: (S), lambda: (S), S, nS)
+                NS3 = Sk + np.diag([nS, 0.0, 0.0]) + 1e-3 * nS          # not skew: a truthy check must reject it
+                for k_, sp in enumerate(TRUE_SPELLINGS):
+                    ctx.case(('vex-check-rejects', k_, tuple(S)))
+                    ctx.count('oracle:vex(check):rejects-non-skew')
+                    try:
+                        base.vex(NS3, check=sp)
+                        ctx.fail('oracle:vex(check=):truthy-spelling-not-checked', f"vex(S, check={sp!r}) accepts a matrix that is not skew-symmetric",
+                                 {'S_hex': hexl(NS3), 'spelling': repr(sp)})
+                    except ValueError:
+                        pass
+                for k_, sp in enumerate(FALSE_SPELLINGS):
+                    chk('vex(check=):falsy-spelling-non-skew', lambda: (base.vex(NS3, check=sp)),
+                        lambda: (np.r_[NS3[2, 1] - NS3[1, 2], NS3[0, 2] - NS3[2, 0], NS3[1, 0] - NS3[0, 1]] / 2), nS, np.r_[k_, S])
+            # every argument unchanged after the call, second identical call gives the same value
+            pure('skew', base.skew, S[3:].copy()); pure('skewa', base.skewa, S.copy())
+            pure('vex', base.vex, base_skew(S[3:])); pure('vexa', base.vexa, ref_hat(S))
+            pure('cross', base.cross, S[:3].copy(), S[3:].copy()); pure('norm', base.norm, S.copy()); pure('normsq', base.normsq, S.copy())
+            pure('adjoint', base.adjoint, T1.copy()); pure('adjoint(3x3)', base.adjoint, T1[:3, :3].copy())
+            pure('tr2jac', base.tr2jac, T1.copy()); pure('tr2jac(samebody)', lambda T: base.tr2jac(T, samebody=True), T1.copy())
+            pure('trinv', base.trinv, T1.copy()); pure('tr2delta', base.tr2delta, T1.copy()); pure('tr2delta(2)', base.tr2delta, T1.copy(), T2.copy())
+            pure('delta2tr', base.delta2tr, S.copy())
+            Xa, Xb = SE3(T1.copy(), check=False), SE3(T2.copy(), check=False)
+            pure('SE3.Ad', lambda A_, B_: Xa.Ad(), Xa.A, Xb.A); pure('SE3.jacob', lambda A_, B_: Xa.jacob(), Xa.A, Xb.A)
+            pure('SE3.delta', lambda A_, B_: Xa.delta(Xb), Xa.A, Xb.A)
+            tw = Twist3(S.copy())
+            pure('Twist3.ad', lambda v_: tw.ad(), tw.S); pure('Twist3.se3', lambda v_: tw.se3(), tw.S)
             chk('ad-value', lambda: (Twist3(S).ad()), lambda: (ref_ad(S)), nS, S)
             chk('ad-bracket', lambda: (Twist3(S).ad() @ r6), lambda: (base.vexa(ref_hat(S) @ ref_hat(r6) - ref_hat(r6) @ ref_hat(S))),
                 nS * np.linalg.norm(r6), np.r_[S, r6])
@@ -388,6 +461,15 @@ def oracle(ctx):
             E = scipy.linalg.expm(ref_hat(d))
             ctx.case(('first-order', tuple(d)))
             ctx.count('oracle:first-order-log')
+            # ... and against the library's own logarithm (trlog is accurate at every angle since 84bd1d7)
+            Ec = E.copy()
+            lg = pure('trlog(twist=True)', lambda M: base.trlog(M, check=False, twist=True), Ec)
+            if lg is not None:
+                chk('first-order-vs-trlog', lambda: (base.tr2delta(E)), lambda: (lg), max(dm * dm, 1e-300), d, tol=1.0 + 1e-9 / max(dm, 1e-300))
+                chk('trlog-of-exp', lambda: (lg), lambda: (d), dm, d)
+                if i % 10 == 0:
+                    spellings('trlog(twist=)', lambda sp: np.asarray(base.trlog(E, check=False, twist=sp), float).flatten(),
+                              lambda: (np.asarray(lg, float).flatten()), lambda: (ref_hat(np.asarray(lg, float)).flatten()), d, dm)
             err = float(np.linalg.norm(base.tr2delta(E) - d))
             ctx.stats['worst:first-order-log/|d|^2'] = max(ctx.stats.get('worst:first-order-log/|d|^2', 0.0), err / dm ** 2)
             if not err <= 1.0 * dm ** 2 + 1e-9 * dm:
